@@ -927,6 +927,10 @@ func (ssl *SSLAuthenticator) exchangeSciToken(ctx context.Context, negotiation *
 		tokenSize := int(sizeBytes[0])<<24 | int(sizeBytes[1])<<16 | int(sizeBytes[2])<<8 | int(sizeBytes[3])
 		slog.Info("🔐 SSL: Expecting SciToken", "bytes", tokenSize, "destination", "cedar")
 
+		if tokenSize > AuthSSLBufSize {
+			return "", fmt.Errorf("SciToken too large: %d bytes (max %d)", tokenSize, AuthSSLBufSize)
+		}
+
 		// Read token data
 		tokenBytes := make([]byte, tokenSize)
 		totalRead := 0
